@@ -4,7 +4,8 @@ ENUM (deviation-bounded) + gfortran differential.  Five template kernels, one pe
 point, each assembled from *feature blocks* (switches); a sixth template runs the
 InlineTransformation option product on a kernel that has one instance of every inlinable thing.
 Every combination of <= d blocks (d=1 quick, d=2 thorough) away from the base kernel x the
-transformation variants of the template (all variants for <= 1 block, the PRIMARY ones for pairs) is
+transformation variants of the template (all variants for <= 1 block, the PRIMARY ones for pairs; mark pairs
+only where a mark-only block is involved, see PRIMARY) is
 built twice with gfortran -O0 -fcheck=bounds (original / transformed) against the same harness-owned
 driver PROGRAM (3 inputs: n=4,5,6, x=0.5,1,2, k=1,2,3) and the printed outputs (every dummy of the
 kernel) are compared.  Builds go through vf.xfast.merged_build_run (the units of a case concatenated into one file,
@@ -1349,12 +1350,14 @@ XFORMS = {
 }
 
 
-# pairs of blocks (d=2) are run under one or two primary variants only (int: utility; mark: default InlineTransformation;
-# fn: inline_functions on plain functions + InlineTransformation on elemental ones; stmt: utility; const: both external_only)
+# pairs of blocks (d=2) are run under the primary variants only (int: utility; mark: default InlineTransformation;
+# fn: inline_functions on plain functions; stmt: utility; const: both external_only).  In the mark template only pairs
+# with at least one mark-only block are generated: all other pairs go through the same inline_subroutine_calls /
+# map_call_to_procedure_body code in the int template (1653 pairs there), the mark template adds pragma and import handling.
 PRIMARY = {
     'int': [XFORMS['int'][0]],
     'mark': [XFORMS['mark'][2]],
-    'fn': [XFORMS['fn'][0], XFORMS['fn'][3]],
+    'fn': [XFORMS['fn'][0]],
     'stmt': [XFORMS['stmt'][0]],
     'const': [XFORMS['const'][0], XFORMS['const'][1]],
 }
@@ -1464,6 +1467,8 @@ def make_cases(d):
         names = [k for k, b in menu.items() if k != 'base' and (b['only'] is None or tmpl in b['only'])]
         for dev in deviations({k: [True] for k in names}, d):
             blocks = ['base'] + [k for k in names if k in dev]
+            if tmpl == 'mark' and len(dev) == 2 and not any(menu[k]['only'] for k in dev):
+                continue
             for xf, opts in (XFORMS[tmpl] if len(dev) <= 1 else PRIMARY[tmpl]):
                 if tmpl == 'mark' and 'callee_import' in blocks and opts.get('adjust_imports') is False:
                     continue  # precondition: without adjust_imports the user provides the callee's imports
